@@ -127,6 +127,29 @@ def run_extract():
     return info
 
 
+def gen_deps(modules):
+    """generated files (ICal/Gen/X.lean) that the given Lean modules import, transitively"""
+    seen, todo, gens = set(), list(modules), set()
+    while todo:
+        m = todo.pop()
+        if m in seen or not m.startswith('ICal.'):
+            continue
+        seen.add(m)
+        if m.startswith('ICal.Gen.'):
+            gens.add(m.split('.')[-1] + '.lean')
+            continue
+        path = os.path.join(LEAN, *m.split('.')) + '.lean'
+        try:
+            with open(path, encoding='utf-8') as f:
+                for line in f:
+                    mm = re.match(r'^import\s+(\S+)', line)
+                    if mm:
+                        todo.append(mm.group(1))
+        except FileNotFoundError:
+            pass
+    return gens
+
+
 def fingerprints():
     try:
         with open(os.path.join(LEAN, 'ICal', 'Gen', 'fingerprints.json')) as f:
